@@ -292,6 +292,11 @@ pub struct Child {
     pub hint_mode: u8,
     /// leaf type WITHOUT drop glue (`needs_drop::<Fut>() == false`): its drop cannot be observed, its values can
     pub plain: bool,
+    /// engine T / C16: announced wake() calls seen, and calls in flight, when this child's previous poll started
+    pub t_count_at_poll: u64,
+    pub t_inflight_at_poll: u32,
+    pub t_count_before_prev: u64,
+    pub t_inflight_before_prev: u32,
 }
 impl Child {
     pub fn leaf(kind: Kind, script: Vec<Step>) -> Child {
@@ -324,6 +329,10 @@ impl Child {
             wake_on_drop: false,
             hint_mode: 0,
             plain: false,
+            t_count_at_poll: 0,
+            t_inflight_at_poll: 0,
+            t_count_before_prev: 0,
+            t_inflight_before_prev: 0,
         }
     }
     pub fn node(fam: Fam, cont: Cont, n: usize) -> Child {
